@@ -1075,6 +1075,7 @@ where
                 // Close (F)
                 'C' => {
                     let close: Close = (&message).try_into()?;
+                    self.forget_closed_statement(&close);
 
                     self.extended_protocol_data_buffer
                         .push_back(ExtendedProtocolData::create_new_close(message, close));
@@ -1406,6 +1407,7 @@ where
                     // Close the prepared statement.
                     'C' => {
                         let close: Close = (&message).try_into()?;
+                        self.forget_closed_statement(&close);
 
                         self.extended_protocol_data_buffer
                             .push_back(ExtendedProtocolData::create_new_close(message, close));
@@ -1550,8 +1552,8 @@ where
                                         && close.is_prepared_statement()
                                         && !close.anonymous()
                                     {
-                                        self.prepared_statements.remove(&close.name);
-
+                                        // The name was forgotten when the Close was read, in its place among the
+                                        // Parse messages of the batch.
                                         // Queue up a close complete message to send to the client
                                         self.response_message_queue_buffer.put(close_complete());
                                     } else {
@@ -2062,6 +2064,14 @@ where
                 self.prepared_statements
                     .retain(|_, (cached, _)| cached.name != parse.name);
             }
+        }
+    }
+
+    /// A Close takes the statement's name away when it is read, like a Parse gives it when it is read:
+    /// a later Parse of the same name in the same batch makes a new statement.
+    fn forget_closed_statement(&mut self, close: &Close) {
+        if self.prepared_statements_enabled && close.is_prepared_statement() && !close.anonymous() {
+            self.prepared_statements.remove(&close.name);
         }
     }
 
